@@ -34,7 +34,7 @@ ASSUMPTIONS = [
 ]
 PROBES = ["ran_to_completion", "forced_cleanup_deleted_preexisting", "refused_without_force", "workspace_inside_input", "input_inside_workspace",
           "identical_paths", "via_symlink", "default_name_coincidence", "symlink_in_input", "file_input", "multi_input",
-          "fault_crash", "fault_eio_copy", "fault_enospc_write", "fault_eacces_mkdir", "second_run_on_residue", "copied_files",
+          "fault_crash", "fault_interrupt", "fault_eio_copy", "fault_enospc_write", "fault_eacces_mkdir", "second_run_on_residue", "copied_files",
           "relative_workspace", "default_workspace", "input_via_symlinked_ancestor", "cwd_contains_default_name",
           "c_language", "c_header_preprocess", "second_run_other_project", "second_run_incremental", "spawned_subprocess", "graph_output", "javascript_language",
           "inputs_share_base_name", "input_given_with_leading_dotdots", "strict_parse_mode", "non_utf8_source_file",
@@ -279,8 +279,8 @@ def generate(rng, k):
     if rng.random() < 0.15 and run["inputs"]:
         run["inputs"][0]["trailing_slash"] = True
     if k["population"] == "faulted":
-        fk = rng.choice(["crash_at_event", "crash_at_event", "eio_on_copy", "enospc_on_write", "eacces_on_mkdir"])
-        if fk == "crash_at_event":
+        fk = rng.choice(["crash_at_event", "crash_at_event", "interrupt_at_event", "eio_on_copy", "enospc_on_write", "eacces_on_mkdir"])
+        if fk in ("crash_at_event", "interrupt_at_event"):
             # quick: a spread of crash points; thorough: any of the ~100-200 mutating events of a run
             run["faults"] = [{"kind": fk, "k": rng.choice([1, 2, 3, 5, 8, 13, 21, 34, 55, 80, 120]) if k.get("tier") != "thorough" else rng.randint(1, 180)}]
         else:
@@ -494,7 +494,7 @@ def execute(trace):
             after = fsseam.snapshot(R)
             for f in rep.get("fired", []):
                 faults[f[0]] = faults.get(f[0], 0) + 1
-                hit({"crash_at_event": "fault_crash", "eio_on_copy": "fault_eio_copy", "enospc_on_write": "fault_enospc_write",
+                hit({"crash_at_event": "fault_crash", "interrupt_at_event": "fault_interrupt", "eio_on_copy": "fault_eio_copy", "enospc_on_write": "fault_enospc_write",
                      "eacces_on_mkdir": "fault_eacces_mkdir"}[f[0]])
             n_events = rep.get("n_events", 0)
             if status == "ok":
